@@ -81,5 +81,97 @@ func c12BatchSpecs() []*edt.Spec {
 				"proceed": func(e *edt.Env) edt.Tri { return edt.Not(edt.Or(e.V("empty"), e.V("anyInvalid"))) },
 			},
 		},
+		{
+			// Verify: per-entry results are the admission flags refined by serial verification of the
+			// admitted entries; the summary is true exactly when NO entry was refused at Add time and
+			// every serial verification succeeds (or the batch equation holds)
+			Pkg: "primitives/sr25519", Func: "(*BatchVerifier).Verify", SymLoops: true, MinPaths: 8,
+			// VerifyBatchOnly only reads the verifier (its may-write summary is coarse: the entries' fields are passed by address to point routines that read them)
+			WritesOverride: map[string][]int{"BatchVerifier.VerifyBatchOnly": {}},
+			Opaque:         []string{"BatchVerifier.VerifyBatchOnly", "RistrettoPoint.TripleScalarMulBasepointVartime", "RistrettoPoint.IsIdentity", "RistrettoPoint.Neg"},
+			Vars: map[string]string{
+				"(len($v.entries) == 0)": "empty", "$v.anyInvalid": "anyInvalid", "BatchVerifier.VerifyBatchOnly($rand)": "batchOK", "BatchVerifier.VerifyBatchOnly($v, $rand)": "batchOK",
+				"((φL0.0 + 1) < len($v.entries))": "initMore", "((φL1.1 + 1) < len($v.entries))": "serialMore",
+				"sel(havoc@L1(M<[]bool>#0), [(φL1.1 + 1)])": "admitted", "φL1.0": "allSoFar",
+			},
+			Classify: func(p *edt.Path, out string, e *edt.Env) string {
+				switch {
+				case out == "false ; nil":
+					return "empty"
+				case strings.HasPrefix(out, "next-iteration@L0("):
+					return "init"
+				case strings.HasPrefix(out, "next-iteration@L1("):
+					return "serial"
+				case strings.HasPrefix(out, "true ; "):
+					return "batch-accepted"
+				case strings.HasPrefix(out, "φL1.0 ; "):
+					return "serial-result"
+				}
+				return ""
+			},
+			Formula: map[string]func(e *edt.Env) edt.Tri{
+				"empty": func(e *edt.Env) edt.Tri { return e.V("empty") },
+				"init":  func(e *edt.Env) edt.Tri { return edt.And(edt.Not(e.V("empty")), e.V("initMore")) },
+				"batch-accepted": func(e *edt.Env) edt.Tri {
+					return edt.And(edt.Not(e.V("empty")), edt.Not(e.V("initMore")), edt.Not(e.V("anyInvalid")), e.V("batchOK"))
+				},
+				"serial": func(e *edt.Env) edt.Tri {
+					return edt.And(edt.Not(e.V("empty")), edt.Not(e.V("initMore")), edt.Or(e.V("anyInvalid"), edt.Not(e.V("batchOK"))), e.V("serialMore"))
+				},
+				"serial-result": func(e *edt.Env) edt.Tri {
+					return edt.And(edt.Not(e.V("empty")), edt.Not(e.V("initMore")), edt.Or(e.V("anyInvalid"), edt.Not(e.V("batchOK"))), edt.Not(e.V("serialMore")))
+				},
+			},
+			Extra: func(p *edt.Path, out, class string, e *edt.Env, ab func(string) string) string {
+				has := func(s string) bool {
+					for _, ev := range p.Events {
+						if ev == s {
+							return true
+						}
+					}
+					return false
+				}
+				const E = "$v.entries[(φL1.1 + 1)]"
+				const eq = "RistrettoPoint.IsIdentity(RistrettoPoint.TripleScalarMulBasepointVartime(" + E + ".hram, RistrettoPoint.Neg(" + E + ".A), " + E + ".S, " + E + ".R))"
+				switch class {
+				case "init":
+					return finalIs(p, ab, "M<[]bool>#0[(φL0.0 + 1)]", "$v.entries[(φL0.0 + 1)].canBeValid")
+				case "serial", "serial-result":
+					if !has("loop L1: φL1.0 starts as not($v.anyInvalid)") {
+						return "the summary of the serial path must start from 'no entry was refused when it was added' (not from true): a batch with a refused entry is never all-valid"
+					}
+					if !has("loop L1: φL1.1 starts as -1") {
+						return "serial verification must start at the first entry"
+					}
+					if class == "serial-result" {
+						if !strings.HasPrefix(out, "φL1.0 ; ") {
+							return "the serial path must return the accumulated summary"
+						}
+						return ""
+					}
+					_, args := callParts(out)
+					if len(args) != 2 || args[1] != "(φL1.1 + 1)" {
+						return "serial verification must visit every entry in order"
+					}
+					switch {
+					case e.V("admitted") == edt.F:
+						if args[0] != "φL1.0" {
+							return "an entry refused at Add time must be skipped without changing the summary (it is already false)"
+						}
+					case e.V("allSoFar") == edt.T:
+						if args[0] != eq {
+							return "the summary must become the result of this entry's verification equation [hram](-A) + [S]B - R = 0: got " + clip(args[0], 200)
+						}
+						return finalIs(p, ab, "M<[]bool>#0[(φL1.1 + 1)]", eq)
+					case e.V("allSoFar") == edt.F:
+						if args[0] != "false" {
+							return "a false summary must stay false"
+						}
+						return finalIs(p, ab, "M<[]bool>#0[(φL1.1 + 1)]", eq)
+					}
+				}
+				return ""
+			},
+		},
 	}
 }
